@@ -87,6 +87,25 @@ fn blp_drive(_s: &Seed, data: &[u8], p: &mut Probe) {
         for lvl in 0..n {
             p.call("blp_to_image", || wow_blp::convert::blp_to_image(&img, lvl));
         }
+        p.call_plain("BlpImage accessors", || {
+            let n = img.mipmap_info().len() + img.estimated_file_size() + img.best_mipmap_for_size(37);
+            std::hint::black_box((n, img.compression_ratio()))
+        });
+    }
+    // the other two ways in: the buffer loader, and the BLP0 parser that asks a callback for the external mipmap files
+    // (offered tails of the same bytes as "files")
+    if let Some(img) = p.call("load_blp_from_buf", || wow_blp::parser::load_blp_from_buf(data)) {
+        p.call("blp_to_image", || wow_blp::convert::blp_to_image(&img, 0));
+    }
+    let ext = p.call("parse_blp_with_externals", || {
+        wow_blp::parser::parse_blp_with_externals(data, |i: usize| -> Result<Option<&[u8]>, Box<dyn std::error::Error>> {
+            if i >= 16 || data.is_empty() { Ok(None) } else { Ok(Some(&data[(i * 97) % data.len()..])) }
+        })
+    });
+    if let Some(img) = ext {
+        for lvl in 0..img.image_count().min(4) {
+            p.call("blp_to_image", || wow_blp::convert::blp_to_image(&img, lvl));
+        }
     }
 }
 
@@ -313,6 +332,30 @@ fn dbc_drive(s: &Seed, data: &[u8], p: &mut Probe) {
             });
         }
     }
+    // the other access paths over the same bytes: lazy, parallel, schema discovery, memory-mapped
+    let header = parser.header().clone();
+    let block = p.call("StringBlock::parse", || wow_cdbc::StringBlock::parse(&mut Cursor::new(data), header.string_block_offset(), header.string_block_size));
+    if let Some(block) = block {
+        let block = std::sync::Arc::new(block);
+        let schema = dbc_schema(s.aux);
+        for sch in [None, Some(&schema)] {
+            let lazy = wow_cdbc::LazyDbcParser::new(data, &header, sch, std::sync::Arc::clone(&block));
+            p.call("LazyDbcParser::record_iterator", || lazy.record_iterator().take(100_000).collect::<Result<Vec<_>, _>>().map(|v| v.len()));
+            for idx in [0u32, 1, header.record_count.saturating_sub(1), header.record_count, u32::MAX] {
+                p.call("LazyDbcParser::get_record", || lazy.get_record(idx));
+            }
+            p.call("parse_records_parallel", || wow_cdbc::parse_records_parallel(data, &header, sch, std::sync::Arc::clone(&block)));
+        }
+        p.call("SchemaDiscoverer::discover", || wow_cdbc::SchemaDiscoverer::new(&header, data, &block).with_validate_strings(true).discover());
+    }
+    let file = p.scratch.join("c05-mmap.dbc");
+    if std::fs::write(&file, data).is_ok() {
+        if let Some(mm) = p.call("MmapDbcFile::open", || wow_cdbc::MmapDbcFile::open(&file)) {
+            p.call("MmapDbcFile::string_block", || mm.string_block());
+            p.call("DbcParser::parse_records", || mm.parser().parse_records());
+        }
+        let _ = std::fs::remove_file(&file);
+    }
 }
 
 pub fn formats() -> Vec<FormatDef> {
@@ -320,7 +363,7 @@ pub fn formats() -> Vec<FormatDef> {
         FormatDef {
             name: "blp",
             family: "blp",
-            entries: &["parse_blp", "blp_to_image"],
+            entries: &["parse_blp", "blp_to_image", "BlpImage accessors", "load_blp_from_buf", "parse_blp_with_externals"],
             seeds: blp_seeds,
             drive: blp_drive,
             cipher: None,
@@ -330,7 +373,8 @@ pub fn formats() -> Vec<FormatDef> {
         FormatDef {
             name: "dbc",
             family: "dbc",
-            entries: &["DbcParser::parse_bytes", "DbcParser::parse_records", "DbcParser::with_schema", "RecordSet walk"],
+            entries: &["DbcParser::parse_bytes", "DbcParser::parse_records", "DbcParser::with_schema", "RecordSet walk", "StringBlock::parse", "LazyDbcParser::record_iterator",
+                       "LazyDbcParser::get_record", "parse_records_parallel", "SchemaDiscoverer::discover", "MmapDbcFile::open", "MmapDbcFile::string_block"],
             seeds: dbc_seeds,
             drive: dbc_drive,
             cipher: None,
